@@ -64,12 +64,16 @@ def combine_latest_(*sources: Observable[Any]) -> Observable[tuple[Any, ...]]:
                     values[i] = x
                     _next(i)
 
+            def on_error(error: Exception) -> None:
+                with lock:
+                    observer.on_error(error)
+
             def on_completed() -> None:
                 with lock:
                     done(i)
 
             subscriptions[i].disposable = sources[i].subscribe(
-                on_next, observer.on_error, on_completed, scheduler=scheduler
+                on_next, on_error, on_completed, scheduler=scheduler
             )
 
         for idx in range(n):
